@@ -64,7 +64,31 @@ func runG11(r *Repo, rep *Report) {
 				continue
 			}
 			tv := info.Types[ret.Results[1]]
-			if tv.Value == nil || tv.Value.String() != "true" {
+			flagVar := types.Object(nil)
+			if tv.Value == nil {
+				// return name, found — with a flag that is set to true somewhere: the same obligation whenever it is true
+				if fid, isID := ast.Unparen(ret.Results[1]).(*ast.Ident); isID {
+					setTrue := false
+					ast.Inspect(fi.Decl.Body, func(m ast.Node) bool {
+						if as, isAs := m.(*ast.AssignStmt); isAs && len(as.Lhs) == len(as.Rhs) {
+							for i, l := range as.Lhs {
+								if lid, isL := l.(*ast.Ident); isL && objOf(info, lid) == info.Uses[fid] {
+									if v := info.Types[as.Rhs[i]].Value; v != nil && v.String() == "true" {
+										setTrue = true
+									}
+								}
+							}
+						}
+						return true
+					})
+					if setTrue {
+						flagVar = info.Uses[fid]
+					}
+				}
+				if flagVar == nil {
+					continue
+				}
+			} else if tv.Value.String() != "true" {
 				continue
 			}
 			n++
@@ -121,6 +145,41 @@ func runG11(r *Repo, rep *Report) {
 						return true
 					})
 					return good && appends > 0
+				}
+				// a variable that is only ever assigned (other than constants) where eq held
+				vettedVar := func(o types.Object, needTrueUnderEq bool) bool {
+					if o == nil {
+						return false
+					}
+					good, assigns := true, 0
+					ast.Inspect(fi.Decl.Body, func(m ast.Node) bool {
+						as, isAs := m.(*ast.AssignStmt)
+						if !isAs || len(as.Lhs) != len(as.Rhs) {
+							return true
+						}
+						for i, l := range as.Lhs {
+							id, isID := l.(*ast.Ident)
+							if !isID || objOf(info, id) != o {
+								continue
+							}
+							if v := info.Types[as.Rhs[i]].Value; v != nil && !(needTrueUnderEq && v.String() == "true") {
+								continue // a constant (the initial "" / false)
+							}
+							assigns++
+							if !underEq(as.Pos()) {
+								good = false
+							}
+						}
+						return true
+					})
+					return good && assigns > 0
+				}
+				if flagVar != nil && !vettedVar(flagVar, true) {
+					// the flag can become true without eq
+				} else {
+					if id, isID := ast.Unparen(ret.Results[0]).(*ast.Ident); isID && vettedVar(info.Uses[id], false) {
+						ok = true
+					}
 				}
 				switch x := ast.Unparen(ret.Results[0]).(type) {
 				case *ast.IndexExpr:
